@@ -340,7 +340,7 @@ struct Gen {
         break;
       }
       case OP_DFT: {
-        int a = src_zv(mod, ntt ? 62 : 49);
+        int a = ntt && r.chance(30, 100) ? new_input_zv(mod, pick_limbs(), 62, PAT_INT64_EDGE) : src_zv(mod, ntt ? 62 : 49);
         uint64_t rs = pick_limbs();
         set(0, new_out(T_DFT, mod, rs), rs);
         set(1, a, cur_limbs(a));
@@ -594,7 +594,8 @@ struct Gen {
       case OP_REIM_MUL:
       case OP_CPLX_MUL:
       case OP_R4_MUL: {
-        int a = new_raw(T_F64, 2 * m, true, vb), b = new_raw(T_F64, 2 * m, true, (int)r.range(1, 30));
+        const bool tiny = cfg.tiny_values && r.chance(20, 100);  // products land in the subnormal range
+        int a = new_raw(T_F64, 2 * m, true, tiny ? -(int)r.range(500, 520) : vb), b = new_raw(T_F64, 2 * m, true, tiny ? -(int)r.range(500, 520) : (int)r.range(1, 30));
         uint64_t al = r.below(100);
         c.s[1] = a;
         c.s[2] = b;
@@ -625,6 +626,7 @@ struct Gen {
         c.s[0] = new_raw(T_I64, 2 * m, false, 0);
         c.s[1] = new_raw(T_F64, 2 * m, true, kb, PAT_RANDOM, ilog2d(divisor));
         P.slots[c.s[1]].pattern = 100 + (r.chance(1, 2) ? PAT_RANDOM : PAT_MIXED);  // near-integer multiples of the divisor
+        if (cfg.allow_ties && kb <= 46 && r.chance(25, 100)) P.slots[c.s[1]].pattern += 100;  // 200+: exact .5 ties allowed
         break;
       }
       case OP_REIM_TO_TNX: {
